@@ -1285,6 +1285,7 @@ class ThreadsafeForwardingResult(TestResult):
         self._test_start = None
         self._global_tags = set(), set()
         self._test_tags = set(), set()
+        self._in_test = False
 
     def __repr__(self):
         return f"<{self.__class__.__name__} {self.result!r}>"
@@ -1345,6 +1346,8 @@ class ThreadsafeForwardingResult(TestResult):
 
     def startTestRun(self):
         super().startTestRun()
+        self._global_tags = set(), set()
+        self._test_tags = set(), set()
         self.semaphore.acquire()
         try:
             self.result.startTestRun()
@@ -1387,7 +1390,13 @@ class ThreadsafeForwardingResult(TestResult):
 
     def startTest(self, test):
         self._test_start = self._now()
+        self._in_test = True
         super().startTest(test)
+
+    def stopTest(self, test):
+        self._in_test = False
+        self._test_tags = set(), set()
+        super().stopTest(test)
 
     def wasSuccessful(self):
         return self.result.wasSuccessful()
@@ -1395,7 +1404,7 @@ class ThreadsafeForwardingResult(TestResult):
     def tags(self, new_tags, gone_tags):
         """See `TestResult`."""
         super().tags(new_tags, gone_tags)
-        if self._test_start is not None:
+        if self._in_test:
             self._test_tags = _merge_tags(self._test_tags, (new_tags, gone_tags))
         else:
             self._global_tags = _merge_tags(self._global_tags, (new_tags, gone_tags))
